@@ -85,15 +85,17 @@ def leak(d, dg):
     return None
 
 
-def lines_privenc_long(rng, n, count):
+def lines_privenc_long(rng, n, count, wrap=False):
     out = []
     for _ in range(n):
         alg = rng.choice([1, 2])
+        # wrap: start the counter just below 2^32 / 2^64 (hook PrivKey::set_salt_value, cfg gufo_snmp_verif)
+        seed = f"seed={(2 ** 32 if alg == 1 else 2 ** 64) - rng.randrange(1, max(2, count))} " if wrap else ""
         key = bytes(rng.getrandbits(8) for _ in range(16))
         eng = bytes(rng.getrandbits(8) for _ in range(rng.choice([5, 12, 32])))
         oids = [bytes([43, 6] + [rng.getrandbits(7) for _ in range(rng.randrange(0, 12))]) for _ in range(rng.randrange(0, 3))]
         req = f"get {rng.getrandbits(31)} " + (",".join(o.hex() for o in oids) if oids else "-")
-        out.append(f"privenc {alg} {key.hex()} {rng.getrandbits(32)} {rng.getrandbits(32)} {count} {gens.hx(eng)} {req}")
+        out.append(f"privenc {alg} {key.hex()} {rng.getrandbits(32)} {rng.getrandbits(32)} {count} {gens.hx(eng)} {seed}{req}")
     return out
 
 
@@ -113,6 +115,7 @@ def run(chk, model_ok=True):
     st = streams.Streams(chk, model_ok)
     st.add("privenc-long", lines_privenc_long(rng, 4 if quick else 12, 1500 if quick else 30000))
     st.add("privenc-short", lines_privenc_long(rng, 60 if quick else 2000, 3))
+    st.add("privenc-wrap", lines_privenc_long(rng, 12 if quick else 200, 40, wrap=True))
     st.run()
     n_pairs = 0
     for ln, out in zip(st.lines, st.impl):
@@ -123,6 +126,7 @@ def run(chk, model_ok=True):
         p = ln.split(" ")
         alg, boots = int(p[1]), int(p[3])
         orc = SaltOracle()
+        seeds = [x for x in p if x.startswith("seed=")]
         for pair in out[3:].split(";"):
             ct, salt = pair.split("/")
             n_pairs += 1
@@ -130,6 +134,11 @@ def run(chk, model_ok=True):
             if why:
                 fail(why, ln)
                 break
+        if seeds and orc.n:
+            first = bytes.fromhex(out[3:].split(";")[0].split("/")[1])
+            c0 = int.from_bytes(first[4:] if alg == 1 else first, "big")
+            if c0 != int(seeds[0][5:]) % (2 ** 32 if alg == 1 else 2 ** 64):
+                chk.notes.append("the salt hook is not active (the wrap-around stream ran with random seeds)")
     st.diff("privenc")
     # 2. sessions: mixed requests, receives, timeouts, failing sends, re-keying
     n_hist = 10 if quick else 120
@@ -140,14 +149,17 @@ def run(chk, model_ok=True):
     longest = 0
     for h in range(n_hist):
         priv = 1 + h % 2
-        peer = sessions.rand_v3_peer(rng, auth=rng.choice([1, 2]), priv=priv, kt="password")
+        # every fourth session: keys installed but the engine id still unknown (raw socket before discovery);
+        # such a session is never answered here, so it keeps sending with the empty engine id
+        undiscovered = h % 4 == 3
+        peer = sessions.rand_v3_peer(rng, auth=rng.choice([1, 2]), priv=priv, kt="password", discover=undiscovered)
         s = sessions.Sess(env, peer, rng)
         all_sess.append(s)
         orc = SaltOracle()
         installs += 1
         for k in range(steps):
             r = rng.random()
-            if r < 0.02:
+            if r < 0.02 and not undiscovered:
                 newst = clone_state(rng, s.peer.state, priv=rng.choice([1, 2]))
                 if s.set_keys(newst)[0] == "ok":
                     longest = max(longest, orc.n)
@@ -174,6 +186,10 @@ def run(chk, model_ok=True):
             why = orc.message(s.peer.state.priv_alg, d) or leak(d, rec["datagrams"][-1])
             if why:
                 fail(f"{s.label} message {orc.n}: {why}", s.line())
+            if undiscovered:
+                if rng.random() < 0.2:
+                    s.recv(rec["op"], [])
+                continue
             if rng.random() < 0.5:
                 st_ = s.peer.state
                 if rng.random() < 0.3:
@@ -202,7 +218,8 @@ def run(chk, model_ok=True):
         "traces_validated_against_impl": nl + len(st.lines) if model_ok else 0,
     })
     chk.assumptions += ["the random seed of the counter is read off the first salt of each installation",
-                        "wrap-around of the 32/64-bit counter is covered by the theorems (no_repeat, params_differ), not by runs"]
+                        "wrap-around of the 32/64-bit counter: theorems (no_repeat, params_differ) + the privenc-wrap stream, which "
+                        "starts the counter just below 2^32 / 2^64 through the cfg(gufo_snmp_verif) hook PrivKey::set_salt_value"]
 
 
 def replay(chk, path):
